@@ -395,16 +395,21 @@ def subtree(tr, path):
 
 
 def tree_diff(a, b, where="the sheet"):
-    """first place where two deep trees differ: (where, kinds a, kinds b) or None"""
+    """all places where two deep trees differ: list of (where, kinds a, kinds b)"""
     ka, kb = [x[0] for x in a], [x[0] for x in b]
     if ka != kb:
-        return where, ka, kb
+        return [(where, ka, kb)]
+    out = []
     for i, (x, y) in enumerate(zip(a, b)):
         if x[1] is not None or y[1] is not None:
-            d = tree_diff(x[1] or [], y[1] or [], "the %s at index %d of %s" % ("@media" if x[0] == 4 else "@page", i, where))
-            if d:
-                return d
-    return None
+            out += tree_diff(x[1] or [], y[1] or [], "the %s at index %d of %s" % ("@media" if x[0] == 4 else "@page", i, where))
+    return out
+
+
+def taints(what):
+    """after this failure the rest of the history is not judged (a failed call left a state the property does not
+    speak about); a child lost inside an @page on re-parse does not disturb anything else"""
+    return not (what.startswith("cssText does not re-parse") and ": the @page at index" in what)
 
 
 def oracle(rx, ops, out):
@@ -447,8 +452,7 @@ def oracle(rx, ops, out):
             if len(rp) != 4 or not isinstance(rp[0], list):
                 yield ("cssText could not be serialised / re-parsed after %s: %s" % (op_label(op), rp), hist, str(rp))
             else:
-                d = tree_diff(rp[2], rp[3])
-                if d:
+                for d in tree_diff(rp[2], rp[3]):
                     yield ("cssText does not re-parse to the same rules after %s: %s has %s, re-parsed %s" % (
                         op_label(op), d[0], d[1], d[2]), hist, json.dumps(rp[0]))
         prev, prevtr = st, tr
@@ -672,7 +676,8 @@ def run(ctx):
             states.add(enc_state(st))
         for what, wit, sig in oracle(rx, ops, im):
             ctx.violation(what, wit, sig_text=sig)
-            break       # the rest of a history that already failed is not judged
+            if taints(what):
+                break       # the rest of a history that already failed is not judged
     if mism:
         ctx.broken("correspondence", "CSSStyleSheet edit operations vs CssV.Order.step",
                    "%d histories differ; first: %s" % (len(mism), json.dumps(mism[:3])))
@@ -708,7 +713,9 @@ def run(ctx):
                     if not ctx.match_known(what + " :: " + sig):
                         if best is None or len(wit["ops"]) < len(best["ops"]):
                             best = dict(wit, fails=what)
-                    break
+                        break
+                    if taints(what):
+                        break
             if best:
                 return shrink(best)
         return None
@@ -719,11 +726,16 @@ def run(ctx):
         def fails(ops):
             if not ops:
                 return False
-            fs = list(oracle(w["rx"], ops, run_history((w["rx"], ops, True))))[:1]
-            return any(not ctx.match_known(a + " :: " + c) for a, b, c in fs)
+            for a, b, c in oracle(w["rx"], ops, run_history((w["rx"], ops, True))):
+                if not ctx.match_known(a + " :: " + c):
+                    return True
+                if taints(a):
+                    return False
+            return False
         ops = shrink_seq(w["ops"], fails)
-        fs = list(oracle(w["rx"], ops, run_history((w["rx"], ops, True))))
-        return {"rx": w["rx"], "ops": ops, "fails": fs[0][0] if fs else w["fails"]}
+        fs = [a for a, b, c in oracle(w["rx"], ops, run_history((w["rx"], ops, True)))
+              if not ctx.match_known(a + " :: " + c)]
+        return {"rx": w["rx"], "ops": ops, "fails": fs[0] if fs else w["fails"]}
 
     ctx.finish({
         "evaluations": nops,
